@@ -1749,9 +1749,14 @@ def c20_gen(rng):
         opts['makeVariables'] = rng.choice(gen.FMTS[:5])
     opts['indent'] = rng.choice([-1, None, 2])
     opts['compact'] = maybe(rng, 0.3)
+    if maybe(rng, 0.12):
+        opts['triples'] = True
     model = rng.choice(['default', 'amr', 'amr', 'noop'])
-    text = corr.gen_stream_text(rng, wf=True)
-    return {'opts': opts, 'model': model, 'input': text}
+    text = corr.gen_stream_text(rng, wf=maybe(rng, 0.85))
+    case = {'opts': opts, 'model': model, 'input': text}
+    if maybe(rng, 0.15):
+        case['more_files'] = [corr.gen_stream_text(rng, ngraphs=rng.choice([1, 1, 2]), wf=True) for _ in range(rng.choice([1, 2]))]
+    return case
 
 
 def inv_reifiable_attr(text, m):
@@ -1770,11 +1775,8 @@ def inv_reifiable_attr(text, m):
     return False
 
 
-def c20_check(case, known=None):
-    m = py_model(case['model'])
-    opts = case['opts']
-    text = case['input']
-    # domain: well-formed input
+def c20_domain(text, m, opts):
+    """trees of a well-formed input text, or None if the text is outside C20's domain"""
     try:
         trees = list(penman.iterparse(text))
     except Exception:  # noqa: BLE001
@@ -1792,8 +1794,55 @@ def c20_check(case, known=None):
                 return None
             if not c02_wf_layout(t2.node, m):
                 return None
+    return trees
+
+
+def c20_pipeline(trees, m, opts):
+    """the documented library pipeline, per tree -> list of output texts"""
+    parts = []
+    for t in trees:
+        if opts.get('canonicalizeRoles'):
+            t = transform.canonicalize_roles(t, m)
+        g = layout.interpret(t, m)
+        if opts.get('reifyEdges'):
+            g = transform.reify_edges(g, m)
         if opts.get('dereifyEdges'):
-            pass
+            g = transform.dereify_edges(g, m)
+        if opts.get('reifyAttributes'):
+            g = transform.reify_attributes(g)
+        if opts.get('triples'):
+            parts.append(penman.format_triples(g.triples, indent=bool(opts.get('indent', -1))))
+            continue
+        t2 = layout.configure(g, model=m)
+        if opts.get('rearrange'):
+            layout.rearrange(t2, key=ops.key_fn(m, opts['rearrange']['keys']),
+                             attributes_first=opts['rearrange'].get('attributesFirst', False))
+        if opts.get('makeVariables'):
+            t2.reset_variables(ops.fmt_string(opts['makeVariables']))
+        parts.append(penman.format(t2, indent=opts.get('indent', -1), compact=opts.get('compact', False)))
+    return parts
+
+
+def c20_check(case, known=None):
+    m = py_model(case['model'])
+    opts = case['opts']
+    text = case['input']
+    # clause 1 (every parseable input, every option set): tool output = library pipeline
+    try:
+        all_trees = list(penman.iterparse(text))
+        want_parts = c20_pipeline(all_trees, m, opts)
+    except Exception:  # noqa: BLE001
+        all_trees = None
+    if all_trees is not None:
+        r0 = ops.run_main(case['model'], opts, [text])
+        want0 = '\n'.join(p + '\n' for p in want_parts) if want_parts else ''
+        if 'err' in r0['exit'] or r0['out'] != want0:
+            return f'tool output differs from the library pipeline: {r0["out"]!r} ({r0["exit"]!r}) vs {want0!r}'
+    if opts.get('triples'):
+        return None     # the feed-back clauses do not apply to --triples output
+    trees = c20_domain(text, m, opts)
+    if trees is None:
+        return None
     r1 = ops.run_main(case['model'], opts, [text])
     if 'err' in r1['exit']:
         return f'tool raised {r1["exit"]!r}'
@@ -1838,6 +1887,22 @@ def c20_check(case, known=None):
         if opts.get('reifyEdges') and opts.get('reifyAttributes') and inv_reifiable_attr(text, m):
             return 'KNOWN:F18'
         return f'not a fixed point: second pass gives {r2["out"]!r} from {out1!r}'
+    # several FILE inputs: the run equals the runs of the single files, in order; fed back as ONE
+    # stream the output is reproduced except for known finding F22 (no blank line at file boundaries)
+    if case.get('more_files') and all(c20_domain(f, m, opts) is not None for f in case['more_files']):
+        files = [text] + case['more_files']
+        singles = [ops.run_main(case['model'], opts, [f]) for f in files]
+        if all('ok' in r_['exit'] for r_ in singles):
+            multi = ops.run_main(case['model'], opts, files)
+            if multi['out'] != ''.join(r_['out'] for r_ in singles):
+                return f'output for several files is not the concatenation of the per-file outputs: {multi["out"]!r}'
+            back = ops.run_main(case['model'], opts, [multi['out']])
+            if back['out'] != multi['out']:
+                want_f22 = '\n'.join(r_['out'] for r_ in singles if r_['out'])
+                if back['out'] == want_f22 and sum(1 for r_ in singles if r_['out']) > 1:
+                    return 'KNOWN:F22'
+                if not (opts.get('reifyEdges') and opts.get('reifyAttributes')):
+                    return f'several files: not a fixed point beyond F22: {back["out"]!r} from {multi["out"]!r}'
     # identity without normalisation options
     if not any(opts.get(k) for k in NORM) and not opts.get('rearrange') and not opts.get('makeVariables'):
         g_in = [graph_content(g, m) for g in penman.iterdecode(text, model=m)]
